@@ -1062,6 +1062,18 @@ struct json_object *json_tokener_parse_ex(struct json_tokener *tok, const char *
 				int64_t num64;
 				uint64_t numuint64;
 				double numd;
+				if (tok->flags & JSON_TOKENER_STRICT)
+				{
+					/* No superfluous leading zeros, whatever the number's form */
+					const char *digits = tok->pb->buf;
+					if (*digits == '-')
+						digits++;
+					if (digits[0] == '0' && digits[1] >= '0' && digits[1] <= '9')
+					{
+						tok->err = json_tokener_error_parse_number;
+						goto out;
+					}
+				}
 				if (!tok->is_double && tok->pb->buf[0] == '-' &&
 				    json_parse_int64(tok->pb->buf, &num64) == 0)
 				{
@@ -1081,12 +1093,6 @@ struct json_object *json_tokener_parse_ex(struct json_tokener *tok, const char *
 				         json_parse_uint64(tok->pb->buf, &numuint64) == 0)
 				{
 					if (errno == ERANGE && (tok->flags & JSON_TOKENER_STRICT))
-					{
-						tok->err = json_tokener_error_parse_number;
-						goto out;
-					}
-					if (numuint64 && tok->pb->buf[0] == '0' &&
-					    (tok->flags & JSON_TOKENER_STRICT))
 					{
 						tok->err = json_tokener_error_parse_number;
 						goto out;
